@@ -270,3 +270,66 @@ def sep(ctx, r):
     # statements: `;` and newline both end a statement
     uses = sum(1 for g, _ in q.iter_items(items) if g["k"] == "Fn" and g.get("body") is not None for x in q.walk(g["body"]) if x["k"] == "MethodCall" and x["m"] == "parse_delimited_list")
     r.count("uses of parse_delimited_list", uses, 5, PARSE)
+
+
+@rule("NEWLINE-ENDS-EXPR", ["C29", "C31"], "a newline ends an expression exactly like `;` or `,`: the operator loop never looks for a continuation across newline tokens")
+def newline_ends_expr(ctx, r):
+    items = ctx.file_items(PARSE)
+    f = q.find_fn(items, "parse_expr_bp") if items else None
+    if f is None:
+        r.missing("parse_expr_bp", PARSE)
+        return
+    loops = [x for x in q.walk(f["body"]) if x["k"] == "Loop"]
+    if not loops:
+        r.missing("parse_expr_bp:operator loop", PARSE)
+        return
+    lp = loops[0]
+    ops = [x for x in q.walk(lp["body"]) if x["k"] == "MethodCall" and x["m"] in ("parse_binop", "parse_postfix_op")]
+    r.count("operator look-aheads in the expression loop", len(ops), 2, PARSE)
+    skips = [x for x in q.walk(lp["body"]) if x["k"] == "MethodCall" and x["m"] in ("skip_newlines", "skip_newline", "eat_newlines") and q.show(x["recv"]) == "self"]
+    # allowed: after an operator has been accepted (inside the part that parses its right operand); not before the look-ahead
+    first_op_line = min((o["l"] for o in ops), default=0)
+    early = [x for x in skips if x["l"] <= max(o["l"] for o in ops)] if ops else skips
+    r.ob(not early, "parse.rs:parse_expr_bp:operator-sought-across-newlines", PARSE, early[0]["l"] if early else lp["l"],
+         "the expression loop skips newline tokens before it looks for an operator: `-` both continues an expression and starts one, so `a` newline `-b` becomes one subtraction, while `a; -b` and `a, -b` stay two items - the choice of separator changes the parse, silently",
+         sample="parse_expr_bp: operators are looked for on the same line only")
+
+
+@rule("LIT-RANGE", ["C30"], "a numeric literal is converted by parsing its whole spelling (sign included) and a spelling that does not fit is a diagnostic: no literal parse is unwrapped, cast or negated after the fact; `_` separators are dropped and digits kept in order")
+def lit_range(ctx, r):
+    items = ctx.file_items(PARSE)
+    lex = ctx.file_items("abra_core/src/parse/lexer.rs")
+    if items is None or lex is None:
+        r.missing("parse.rs / lexer.rs")
+        return
+    n = 0
+    for f, _ in q.iter_items(items):
+        if f["k"] != "Fn" or f.get("body") is None:
+            continue
+        for x in q.walk(f["body"]):
+            if not (x["k"] == "MethodCall" and x["m"] == "parse" and ("i64" in str(x.get("turbofish", "")) or "f64" in str(x.get("turbofish", "")) or "parse::<" in q.show(x))):
+                continue
+            n += 1
+            # the parse result must be the scrutinee of a match with an Err arm that returns/pushes an error
+            m = next((mm for mm in q.walk(f["body"]) if mm["k"] == "Match" and any(y is x for y in q.walk(mm["e"]))), None)
+            ok = False
+            if m is not None and (m["e"] is x or q.show(m["e"]) == q.show(x)):
+                errs = [a for a in m["arms"] if "Err" in q.show_pat(a["pat"])]
+                ok = bool(errs) and all(any(y["k"] == "Return" or (y["k"] == "MethodCall" and y["m"] == "push" and "errors" in q.show(y["recv"])) for y in q.walk(a["body"])) and any(y["k"] in ("Path", "Call", "Struct") and "Error::" in (y.get("p") or (q.show(y["f"]) if y["k"] == "Call" else "")) for y in q.walk(a["body"])) for a in errs)
+            r.ob(ok, f"parse.rs:{f['name']}:{q.show(x['recv'])[:30]}.parse{x.get('turbofish') or ''}:literal-parse-not-checked", PARSE, x["l"],
+                 f"{f['name']}: `{q.show(x)[:60]}` converts a literal's spelling; its failure (a value that does not fit) must be matched and reported as a diagnostic - an unwrap panics the front end, a fallback silently changes the value",
+                 sample=f"{f['name']}: {q.show(x)[:40]} matched, Err -> diagnostic")
+            # a negative literal is parsed with its sign: `-` + digits, so that the minimum integer is writable
+        negs = [x for x in q.walk(f["body"]) if x["k"] == "Unary" and x.get("op") in ("-", "Neg") and any(y["k"] == "MethodCall" and y["m"] == "parse" for y in q.walk(x["e"]))]
+        for x in negs:
+            r.find(f"parse.rs:{f['name']}:negated-after-parse", PARSE, x["l"], f"{f['name']}: a literal is negated after parsing its digits (`{q.show(x)[:60]}`): the minimum integer, whose magnitude does not fit, cannot be written")
+    r.count("literal spellings parsed in the parser", n, 6, PARSE)
+    hn = q.find_fn(lex, "handle_num", impl_ty="Lexer")
+    if hn is None:
+        r.missing("Lexer::handle_num", "abra_core/src/parse/lexer.rs")
+        return
+    pushes = [x for x in q.walk(hn["body"]) if x["k"] == "MethodCall" and x["m"] == "push" and q.show(x["recv"]) == "num"]
+    und = [x for x in pushes if "'_'" in q.show(x["args"][0])]
+    guarded = all(any(i["k"] == "If" and "is_ascii_digit" in q.show(i["c"]) and any(y is x for y in q.walk(i["t"])) for i in q.walk(hn["body"])) for x in pushes if q.show(x["args"][0]) == "c")
+    r.ob(not und and guarded and len(pushes) >= 4, "lexer.rs:handle_num:separators", "abra_core/src/parse/lexer.rs", hn["l"],
+         f"handle_num must append exactly the sign, the digits (under is_ascii_digit) and the decimal point to the spelling, never a `_` ({[q.show(x) for x in pushes]})", sample="handle_num: sign, digits, point appended; `_` skipped")
